@@ -37,7 +37,7 @@ ASSUMPTIONS = [
 ]
 REQUIRED_CLASSES = {"all": ["A:json", "A:xml", "B:json", "B:xml", "feature:json:single_value_in_array", "feature:json:formal_in_array",
                             "feature:json:record_array", "feature:json:multi_entity_membership", "feature:json:membership_record_array", "feature:json:bundle_alias_shadows_doc_prefix", "feature:json:bundle_prefix_block",
-                            "feature:json:typed_string", "feature:xml:subtype_element", "feature:xml:xsi_type_on_record_element", "refused:two_values_for_formal", "feature:xml:local_ns_declarations",
+                            "feature:json:typed_string", "feature:xml:subtype_element", "feature:xml:xsi_type_on_record_element", "refused:two_values_for_formal", "feature:xml:local_ns_declarations", "feature:xml:prefix_rebound_on_attribute_element", "feature:xml:prefix_declared_on_attribute_element",
                             "feature:xml:comments", "mut:reorder", "mut:wrap", "mut:kind", "mut:rename_prefix", "stability:same_format",
                             "stability:cross_format"]}
 
